@@ -47,6 +47,7 @@ struct RegistryWorld : World {
 	void gen(Rng &r, Plan &p, int tier) override {
 		int nops = (int) r.range(1, tier ? 150 : 60);
 		bool allocf = r.chance(1, 3);
+		p.set("initwhat", r.below(5));      // which table's first use meets the failing allocation: 0 metatypes, 1 core types, 2 scalars, 3 vectors, 4 interfaces
 		p.set("initfault", r.chance(1, 6) ? r.range(1, 3) : 0);     // an allocation fails while the metatype table is set up
 		for (int i = 0; i < nops; ++i) {
 			Op op; unsigned k = (unsigned) r.below(24);
@@ -121,6 +122,7 @@ struct RegistryWorld : World {
 		}
 	}
 	void exec(const Plan &p, Log &log, Stats &st) override {
+		int early_if = 0;
 		if (!process_finding.empty()) fail("cxx-basic-id", "%s", process_finding.c_str());
 		{ Sut s; verif_registry_reset(); }
 		ledger_reset();
@@ -128,6 +130,19 @@ struct RegistryWorld : World {
 		// the built-in tables are created on first use; that happens here. In some runs an allocation fails during the set-up of the
 		// metatype table: that call may fail, but the table must not be left half made - the next use sets it up (or fails) cleanly, and
 		// no id handed out afterwards may be a built-in one
+		int initwhat = (int) p.get("initwhat");
+		if (p.get("initfault") && initwhat >= 1 && initwhat <= 4) {
+			// the first use of one of the other built-in tables runs out of memory: the lookup may fail, it may not crash, and the next use
+			// finds (or makes) a complete table
+			uint64_t fn = (uint64_t) p.get("initfault"), fired; const void *r1, *r2;
+			int id = initwhat == 1 ? TypeValue : initwhat == 2 ? 'i' : initwhat == 3 ? (int) MPT_type_toVector('d') : 0x80;
+			{ Sut s(fn); r1 = initwhat == 4 ? (const void *) mpt_interface_traits(id) : (const void *) mpt_type_traits(id); fired = g.fired; }
+			if (initwhat == 4 && (fn & 1)) { Sut s(fn); const named_traits *nt = mpt_type_interface_add(0); if (nt && (nt->type < 0x90 || nt->type > 0xbf)) fail("id-range", "an interface registered while the table set-up ran out of memory got id %x", (int) nt->type); if (nt) early_if = (int) nt->type; }
+			{ Sut s; r2 = initwhat == 4 ? (const void *) mpt_interface_traits(id) : (const void *) mpt_type_traits(id); }
+			log.ev("INIT table %d under allocation failure %llu -> %s, then %s", initwhat, (unsigned long long) fn, r1 ? "ok" : "null", r2 ? "ok" : "null");
+			if (fired) st.hit("fault:allocfail_in_table_setup");
+			if (!r2) fail("builtin-lost", "after an allocation failure during the set-up of built-in table %d, id %x does not resolve any more", initwhat, id);
+		}
 		{ Sut s; mpt_type_traits('c'); mpt_type_traits(0x41); mpt_type_traits(TypeValue); mpt_interface_traits(0x80); }
 		const named_traits *early = 0;
 		if (p.get("initfault")) {
@@ -138,6 +153,7 @@ struct RegistryWorld : World {
 		{ Sut s; mpt_metatype_traits(0x100); }
 		reg.clear(); builtin_names();
 		if (early) { Entry e; e.kind = 3; e.named = false; e.size = sizeof(void *); e.traits = 0; reg[(int) early->type] = e; }
+		if (early_if) { Entry e; e.kind = 2; e.named = false; e.size = sizeof(void *); e.traits = 0; reg[early_if] = e; }
 		int used_traits = 0; std::set<int> seen_ids;
 		log.ev("registry");
 		auto add = [&](int kind, const std::string &nm, bool named, size_t size, uint64_t failn, bool quiet) -> int {
